@@ -1,7 +1,7 @@
 (* C10 — Progress after stabilisation: leader elected, logs converge, proposals commit.
    Only pinned statements (generated verbatim from the proof files by
-   tools_c10/genprops.py) and non-vacuity Examples; proofs live in M/RaftProofsC10.v and
-   M/RaftProofsC10Pair.v.  The models M/Raft.v, M/Progress.v, M/Inflights.v, M/RaftLog.v
+   tools_c10/genprops.py) and non-vacuity Examples; proofs live in M/RaftProofsC10.v,
+   M/RaftProofsC10Pair.v and M/RaftProofsC10Star.v.  The models M/Raft.v, M/Progress.v, M/Inflights.v, M/RaftLog.v
    are taken as given.
 
    WHAT THE PROPERTY SAYS AND WHAT CAN BE A THEOREM.
@@ -123,22 +123,69 @@
       window of stale indexes), and xp_run_* compute the 188 rounds: no panic,
       matched = 5, F's log and commit index reach 5.
 
+   7. star_convergence / star_commit_all (M/RaftProofsC10Star.v): the pair theorem lifted to
+      ONE leader L and a LIST of followers Fs (distinct ids, voters or learners, all tracked
+      by L, same term) under the lock-step schedule [star_round]:
+        (i) every message L has queued is delivered to its addressee among Fs, in order;
+        (ii) the replies of each follower go back to L, follower after follower in list
+             order; (iii) everybody ticks once.
+      star_frame (the independence lemma): while L handles a response of ANOTHER follower,
+      follower f's Progress keeps its state, its matched and - while probing - its
+      next_idx, and the invariant of the pair proof; whatever L queues for f meanwhile is a
+      sound MsgAppend, built from (L's log, f's Progress) only.  The stronger wording "never
+      changes f's next_idx / window" is FALSE and is refuted by a concrete witness
+      (other_response_moves_next_refuted: an acknowledgement of follower 2 advances the
+      commit index, bcast_append sends entries 3..5 to the replicating follower 3, whose
+      next_idx goes 3 -> 6 and whose window fills); this is harmless: the measure of the
+      pair proof ignores next_idx while replicating.  Hence every follower's measure goes
+      down independently, every heartbeat_timeout + 2 rounds.
+      star_convergence: under the hypotheses of pair_convergence for L (star_leader) and
+      for each follower (star_start: nothing in flight, Progress Probe or Replicate in any
+      pause / window state, log agreeing up to its frontier, log of L not compacted past its
+      matched, ...), if N0 rounds run without a panic, N0 >= (heartbeat_timeout + 2) *
+      pair_measure_bound last_index matched_F for EVERY follower F (the MAXIMUM of the pair
+      bounds, not their sum), then for every follower: matched = last_index L and its log
+      agrees with L's up to last_index L; L is still the leader.
+      star_commit_all (the commit clause): if in addition the last entry of L's log has L's
+      term (the no-op of become_leader), L's own Progress has matched = last_index (its log
+      is persisted - persistence itself is not modelled, this is assumed of the start state
+      and is preserved), the voters are L and (some of) the followers, and L's commit index
+      is consistent with the Progress map at the start (CommitInv: <= last_index, and
+      = last_index if every voter's matched already is), then at the end of the N0 rounds
+      committed L = last_index, and after heartbeat_timeout + 1 more rounds every follower's
+      commit index is last_index too (heartbeats carry min (matched, committed)).  Quorum
+      fact used: when every voter's matched is q, the quorum index of the (joint, with or
+      without group commit) configuration is q (mci_all_at); the commit then happens in the
+      maybe_commit of the acknowledgement that made the last voter reach q
+      (leader_step_CommitInv).  follower_steps_commit: a follower's commit index never goes
+      back and reaches the commit index of every heartbeat it handles.
+      Non-vacuity: sp_commit_applies instantiates every hypothesis on a 3-node star (leader,
+      a follower tracked as a PAUSED probe with a divergent entry, a follower tracked as
+      Replicate with a FULL window of stale indexes); sp_run computes the 191 rounds: no
+      panic, everybody has the 5 entries and commit index 5.
+
    NOT PROVED (beyond the items marked above).
    * the probabilistic clause: eventually exactly one leader (see top);
-   * whole-cluster convergence: every running member's log and commit index reach the
-     leader's; only the pair (one leader, one follower, nothing else interfering) is done;
+   * whole-cluster convergence BEYOND the star: the followers only talk to the leader
+     (no second leader, no candidate, no message between followers), L's own log must
+     already be persisted (own matched = last_index) for the commit clause;
    * "a newly proposed entry is committed and handed to the application on every running
-     member": no proposal arrives in the pair schedule, and commit / apply are not part of
-     its conclusion (the example runs show the commit index arriving);
-   * the pair theorem with messages already in flight at the start, with batch_append, with
-     check_quorum, with pending read-index requests, with a compacted leader log (snapshot
-     path inside the run), with a pending window shrink; RawNode-level (Ready / persist /
-     advance) scheduling;
-   * "within a bounded number of ELECTION timeouts": the pair bound is in rounds (ticks),
+     member": no proposal arrives during the star run.  Not done because (a) after a
+     proposal the leader's own matched lags until on_persist_entries, so the commit needs the
+     MAJORITY form of the quorum argument (only the all-voters form is proved), and the
+     persistence step lives at RawNode level; (b) a follower may still hold old entries
+     ABOVE the leader's former last index, about which the agreement invariant says nothing.
+     Application hand-over (commit_apply / Ready) is not modelled in the schedule;
+   * the pair / star theorems with messages already in flight at the start, with
+     batch_append, with check_quorum, with pending read-index requests, with a compacted
+     leader log (snapshot path inside the run), with a pending window shrink; RawNode-level
+     (Ready / persist / advance) scheduling;
+   * "within a bounded number of ELECTION timeouts": the bounds are in rounds (ticks),
      quadratic in last_index; no attempt at the tight bound. *)
 From RV Require Import Base.Prelude Base.IdSet M.Util M.Proto M.MemStorage M.MemStorageProofs
   M.Inflights M.InflightsProofs M.Progress M.RaftLog M.RaftLogProofs M.Quorum M.ConfChange
-  M.Msg M.Raft M.RaftProofs M.RaftProofsC15 M.RaftProofsC09 M.RaftProofsC10 M.RaftProofsC10Pair.
+  M.Msg M.Raft M.RaftProofs M.RaftProofsC15 M.RaftProofsC09 M.RaftProofsC10 M.RaftProofsC10Pair
+  M.RaftProofsC10Star.
 From RV Require M.QuorumProofs.
 From RecordUpdate Require Import RecordSet.
 Import RecordSetNotations.
@@ -637,6 +684,119 @@ Proof. exact pair_convergence. Qed.
 Print Assumptions C10_pair_convergence.
 
 
+(* ---- 7. star convergence and the commit clause ---- *)
+(* the independence lemma, and the refutation of its stronger wording *)
+Theorem C10_star_frame :
+    forall (LL : LL) (T l f lo : N) (rwl : bool) (l0 : raft_log) (b : N)
+         (L : raft) (pr : progress) (m : msg) (L' : raft) (c : N),
+  LeaderLog LL -> ll_base LL <= lo -> (exists t, ll_term LL lo = SOk t) -> T <> 0 -> l <> f ->
+  RepInv rwl l0 -> abs l0 = LL ->
+  LCore T l l0 L -> get_pr L f = Some pr -> PrInv LL lo b pr ->
+  m_term m = T -> m_from m <> f ->
+  (m_type m = MsgAppendResponse \/ (m_type m = MsgHeartbeatResponse /\ m_context m = [])) ->
+  step L m = Ok (L', c) ->
+  exists pr',
+    get_pr L' f = Some pr' /\ PrInv LL lo b pr' /\
+    pr_state pr' = pr_state pr /\ matched pr' = matched pr /\
+    (pr_state pr = Probe -> next_idx pr' = next_idx pr) /\
+    lfr L L' /\ LCore T l l0 L' /\
+    exists new, r_msgs L' = r_msgs L ++ new /\
+                Forall (fun x => m_to x = f -> snd_app LL T l f lo x) new.
+Proof. exact star_frame. Qed.
+Print Assumptions C10_star_frame.
+
+Theorem C10_other_response_moves_next_refuted :
+    exists L' p3 p3',
+    step rf_L rf_m = Ok (L', E_OK) /\ m_from rf_m = 2 /\
+    get_pr rf_L 3 = Some p3 /\ get_pr L' 3 = Some p3' /\
+    next_idx p3 = 3 /\ next_idx p3' = 6 /\ count (ins p3) = 0%nat /\ count (ins p3') = 1%nat /\
+    matched p3' = matched p3 /\ pr_state p3' = pr_state p3 /\ committed (r_log L') = 5.
+Proof. exact other_response_moves_next_refuted. Qed.
+Print Assumptions C10_other_response_moves_next_refuted.
+
+(* what a leader does with a response as far as log and matched are concerned *)
+Theorem C10_leader_resp_cases :
+  forall T L m L' c,
+  T <> 0 -> r_state L = Leader -> r_term L = T -> m_term m = T ->
+  (m_type m = MsgAppendResponse \/ (m_type m = MsgHeartbeatResponse /\ m_context m = [])) ->
+  step L m = Ok (L', c) ->
+  conf_of L' = conf_of L /\
+  ((r_log L' = r_log L /\ same_matched L L') \/
+   (exists pg pr2 r1 cmt,
+      get_pr L (m_from m) = Some pg /\ matched pg < matched pr2 /\
+      (forall id p, id <> m_from m -> get_pr L id = Some p ->
+                    get_pr (put_pr L (m_from m) pr2) id = Some p) /\
+      maybe_commit (put_pr L (m_from m) pr2) = Ok (r1, cmt) /\
+      r_log L' = r_log r1 /\ same_matched (put_pr L (m_from m) pr2) L')).
+Proof. exact leader_resp_cases. Qed.
+Print Assumptions C10_leader_resp_cases.
+
+(* the quorum index when every voter has the same matched; the commit invariant of one step *)
+Theorem C10_mci_all_at :
+  forall r q,
+  all_voters_at r q -> incoming (conf_of r) <> [] -> q <= u64_max ->
+  fst (prs_maximal_committed_index (r_prs r)) = q.
+Proof. exact mci_all_at. Qed.
+Print Assumptions C10_mci_all_at.
+
+Theorem C10_leader_step_CommitInv :
+  forall T last L m L' c,
+  T <> 0 -> r_state L = Leader -> r_term L = T -> m_term m = T ->
+  (m_type m = MsgAppendResponse \/ (m_type m = MsgHeartbeatResponse /\ m_context m = [])) ->
+  last_index (r_log L) = last -> last <= u64_max ->
+  RaftLog.term (r_log L) last = Ok (SOk T) ->
+  incoming (conf_of L) <> [] ->
+  CommitInv last L -> step L m = Ok (L', c) ->
+  CommitInv last L' /\ committed (r_log L) <= committed (r_log L').
+Proof. exact leader_step_CommitInv. Qed.
+Print Assumptions C10_leader_step_CommitInv.
+
+(* a follower's commit index under same-term appends and heartbeats *)
+Theorem C10_follower_steps_commit :
+  forall T,
+  forall q F F',
+  T <> 0 -> r_state F = Follower -> r_term F = T ->
+  Forall (fun m => m_term m = T /\ (m_type m = MsgAppend \/ m_type m = MsgHeartbeat)) q ->
+  steps F q = Ok F' ->
+  committed (r_log F) <= committed (r_log F') /\
+  (forall x, In x q -> m_type x = MsgHeartbeat -> m_commit x <= committed (r_log F')).
+Proof. exact follower_steps_commit. Qed.
+Print Assumptions C10_follower_steps_commit.
+
+Theorem C10_star_convergence :
+    forall (L : raft) (Fs : list raft) (rwl rwf : bool) (N0 : nat) (L' : raft) (Fs' : list raft),
+  star_leader L rwl -> Fs <> [] -> NoDup (map r_id Fs) -> Forall (star_start L rwf) Fs ->
+  (forall F, In F Fs ->
+     (N.to_nat (r_heartbeat_timeout L + 2) *
+      N.to_nat (pair_measure_bound (last_index (r_log L)) (start_matched L (r_id F))) <= N0)%nat) ->
+  star_rounds N0 L Fs = Ok (L', Fs') ->
+  Forall2 (star_done L L') Fs Fs' /\
+  r_state L' = Leader /\ r_term L' = r_term L /\ last_index (r_log L') = last_index (r_log L).
+Proof. exact star_convergence. Qed.
+Print Assumptions C10_star_convergence.
+
+Theorem C10_star_commit_all :
+    forall (L : raft) (Fs : list raft) (rwl rwf : bool) (pl : progress) (N0 K : nat)
+         (L' : raft) (Fs' : list raft),
+  star_leader L rwl -> Fs <> [] -> NoDup (map r_id Fs) -> Forall (star_start L rwf) Fs ->
+  (forall F, In F Fs ->
+     (N.to_nat (r_heartbeat_timeout L + 2) *
+      N.to_nat (pair_measure_bound (last_index (r_log L)) (start_matched L (r_id F))) <= N0)%nat) ->
+  (* commit *)
+  ll_term (abs (r_log L)) (last_index (r_log L)) = SOk (r_term L) ->
+  incoming (conf_of L) <> [] ->
+  (forall v, In v (incoming (conf_of L)) \/ In v (outgoing (conf_of L)) ->
+             v = r_id L \/ In v (map r_id Fs)) ->
+  get_pr L (r_id L) = Some pl -> matched pl = last_index (r_log L) ->
+  CommitInv (last_index (r_log L)) L ->
+  (N.to_nat (r_heartbeat_timeout L + 1) <= K)%nat ->
+  star_rounds (N0 + K) L Fs = Ok (L', Fs') ->
+  committed (r_log L') = last_index (r_log L) /\
+  Forall2 (fun F F' => star_done L L' F F' /\ committed (r_log F') = last_index (r_log L)) Fs Fs'.
+Proof. exact star_commit_all. Qed.
+Print Assumptions C10_star_commit_all.
+
+
 (* ---- non-vacuity ---- *)
 
 (* 6: every hypothesis of pair_convergence holds of a concrete pair: leader 1 (term 2,
@@ -724,3 +884,25 @@ Example C10_heartbeat_example :
     tick (xp_L xp_pr_probe <| r_heartbeat_elapsed := 1 |>) = Ok (r', b) /\
     r_msgs r' = [x] /\ m_type x = MsgHeartbeat /\ m_to x = 2 /\ r_heartbeat_elapsed r' = 0.
 Proof. vm_compute. do 3 eexists. repeat split; reflexivity. Qed.
+
+(* 7: every hypothesis of star_commit_all holds of a concrete 3-node star: leader 1 (term 2,
+   entries 1..5 of terms 1,1,2,2,2, nothing committed), follower 2 (entries 1..3, entry 3
+   diverging) tracked as a PAUSED probe at next_idx 5, follower 3 (entries 1..2) tracked
+   as Replicate with a FULL window of stale indexes;
+   191 = (heartbeat_timeout + 2) * pair_measure_bound 5 0 + heartbeat_timeout + 1 *)
+Example C10_star_commit_applies :
+  forall L' Fs', star_rounds (188 + 3) sp_L [sp_F2; sp_F3] = Ok (L', Fs') ->
+  committed (r_log L') = 5 /\
+  Forall2 (fun F F' => star_done sp_L L' F F' /\ committed (r_log F') = 5) [sp_F2; sp_F3] Fs'.
+Proof. exact sp_commit_applies. Qed.
+
+(* and the 191 rounds do run without a panic (computed): everybody has the whole log and
+   has committed it *)
+Example C10_star_run :
+  exists L' F2' F3' p2 p3,
+    star_rounds (188 + 3) sp_L [sp_F2; sp_F3] = Ok (L', [F2'; F3']) /\
+    committed (r_log L') = 5 /\
+    get_pr L' 2 = Some p2 /\ matched p2 = 5 /\ get_pr L' 3 = Some p3 /\ matched p3 = 5 /\
+    last_index (r_log F2') = 5 /\ committed (r_log F2') = 5 /\
+    last_index (r_log F3') = 5 /\ committed (r_log F3') = 5.
+Proof. exact sp_run. Qed.
